@@ -24,15 +24,18 @@
      u4       \u + exactly 4 hex digits, not a surrogate    -> UTF-8 of the code point
      U8       \U + exactly 8 hex digits, <= 0x10FFFF, not a surrogate -> UTF-8 of the code point
      raw      any other character except LF / NUL / the delimiter stands for its own bytes
-     concat   adjacent literals are concatenated ("a"'b' = "ab")
+     concat   adjacent literals, optionally separated by white space, are concatenated
+              ("a"'b' = "a" 'b' = "ab")
      reject   LF or NUL inside a literal; \ + anything else; \x without hex digit; \u, \U with too
               few hex digits; \U above 0x1FFFFF; unterminated literal; anything but a literal
-              directly after a literal
+              after a literal
    Uncertain (outside the exported domain):
      unc:octal>377     \400..\777   (protoc wraps modulo 256, the project rejects on purpose)
      unc:X             \X + hex digit (upper-case X: not accepted by every protoc version)
      unc:surrogate     \uD800..\uDFFF, \U0000D800.. (protoc pairs them / emits CESU-8)
      unc:U>10ffff      \U00110000..\U001FFFFF (accepted by protoc's tokenizer, rejected here)
+     unc:rawbyte       a raw byte that is not valid UTF-8 inside a literal (protoc copies the byte;
+                       the project replaces it by U+FFFD on purpose, pinned by parser.TestUTF8)
 *)
 EXTENDS Naturals, Sequences, FiniteSets
 
@@ -43,6 +46,7 @@ LF  == 10
 NUL == 0
 RawBase == 1000000
 
+White == {32, 9, 10, 13, 11, 12}      \* space TAB LF CR VT FF separate tokens
 Dig  == 48..57
 Oct  == 48..55
 HexS == Dig \cup (97..102) \cup (65..70)
@@ -125,7 +129,8 @@ Lit(t, i, q, acc) ==
     ELSE SRes("reject", [acc EXCEPT !.rules = @ \cup {"rej:unterminated"}])
   ELSE LET c == t[i] IN
     IF q = 0 THEN
-      IF c \in {DQ, SQ}
+      IF c \in White THEN Lit(t, i + 1, 0, acc)          \* white space between / after literals
+      ELSE IF c \in {DQ, SQ}
       THEN Lit(t, i + 1, c, [acc EXCEPT !.n = @ + 1,
                                         !.rules = IF acc.n >= 1 THEN @ \cup {"concat"} ELSE @])
       ELSE SRes("reject", [acc EXCEPT !.rules = @ \cup {"rej:trailing"}])
@@ -138,10 +143,9 @@ Lit(t, i, q, acc) ==
         THEN Lit(t, e.next, q, [acc EXCEPT !.bytes = @ \o e.out, !.u8 = @ /\ e.u8,
                                            !.rules = @ \cup {e.rule}])
         ELSE SRes(e.st, [acc EXCEPT !.rules = @ \cup {e.rule}])
+    ELSE IF c >= RawBase THEN SRes("uncertain", [acc EXCEPT !.rules = @ \cup {"unc:rawbyte"}])
     ELSE Lit(t, i + 1, q, [acc EXCEPT !.bytes = @ \o SrcBytes(c),
-                                      !.u8 = @ /\ (c < RawBase),
-                                      !.rules = @ \cup {IF c >= RawBase THEN "rawbyte"
-                                                        ELSE IF c >= 128 THEN "utf8char" ELSE "raw"}])
+                                      !.rules = @ \cup {IF c >= 128 THEN "utf8char" ELSE "raw"}])
 
 DecodeText(t) == Lit(t, 1, 0, [bytes |-> <<>>, u8 |-> TRUE, rules |-> {}, n |-> 0])
 
